@@ -11,7 +11,8 @@ static const char * kHFieldNames[] = {PR_NAME_KEYS, PR_NAME_FILTERS, PR_NAME_REM
    PR_NAME_MAXDEPTH, PR_NAME_REMOVE_FROM_INDEX, PR_NAME_ROUTE_GATEWAY_TO_NEIGHBORS, PR_NAME_ROUTE_NEIGHBORS_TO_GATEWAY, "SUBSCRIBE:*", "SUBSCRIBE:a/*", "SUBSCRIBE:/*/*/a", "a", "a/b", "a/b/c", "*", "I0", "", "/", "a//b", "a/", "..",
    "(a|", "[a-", "<1-3>", "~a", "\\", "a,b", "SUBSCRIBE:", "SUBSCRIBE:(", "*/*", "/*/*/*/*", "x"};
 static const char * kHStrings[] = {"*", "a", "a/b", "a/*", "/*/*/a", "/*/*/*", "", "(a|b", "[z-a]", "<5-1>", "~*", "\\", "a,b,c", "*/*/*/*/*/*/*/*/*/*", "I0", "!Rmv", "zzz", "SUBSCRIBE:*", "SUBSCRIBE:a/*", "!SnKy", ".*", "^$",
-   "a{99999}", "((((((((((a))))))))))", "***************************a", "[[[[", "<->", "<99999999999999999999-1>", "a\\", "\\\\\\", "(|)", "~~~~a", "*,*,*", "b", "ab", "c", "?", "[a-c]*"};
+   "a{99999}", "((((((((((a))))))))))", "***************************a", "[[[[", "<->", "<99999999999999999999-1>", "a\\", "\\\\\\", "(|)", "~~~~a", "*,*,*", "b", "ab", "c", "?", "[a-c]*",
+   "`", "~`", "`^a.*$", "`(", "a/`", "`/`", "<1-2>/`", "<0-9>", "<3>", "~<1-3>", "<1-3>/a", "\\<1-3>", "a/<0-5>/b"};   // the documented backtick "raw regex" prefix (incl. an EMPTY regex behind it), numeric ranges in every position
 template<size_t N> inline const char * PickStr(Rng & r, const char * (&a)[N]) {return a[r.below((uint32_t) N)];}
 
 inline MessageRef HostileFilterArchive(Rng & r, int depth)
